@@ -226,13 +226,19 @@ func cmdCheck(args []string) int {
 	replayDir := filepath.Join(root, "replays", prop)
 	confirmed := 0
 	var samplesViol []interface{}
+	replayedLabel := map[string]string{}
 	for i, v := range newViolations {
 		os.MkdirAll(replayDir, 0o755)
 		path := filepath.Join(replayDir, fmt.Sprintf("%s-%d.json", v.Harness, i))
 		writeReplay(path, prop, v)
 		status := "not-replayed"
-		if !*noReplay {
+		lk := v.Harness + "|" + v.Label + "|" + v.Kind
+		if prev, done := replayedLabel[lk]; done && prev == "reproduced" {
+			// another input class of an assertion already confirmed natively
+			status = "reproduced"
+		} else if !*noReplay {
 			status = nativeReplay(root, ps, v, path)
+			replayedLabel[lk] = status
 		}
 		switch status {
 		case "reproduced", "not-replayed":
